@@ -804,5 +804,6 @@ func extractC05() *lean {
 		}
 	}
 	_ = os.Stderr
+	extractC05Forms(l)
 	return l
 }
